@@ -35,41 +35,13 @@
      pasting: every non-function key is collected, the buffer does not change;
      pasteend: the collected text (quoted if q) is inserted at the dot.
    Every record must leave the dot valid (rdot >= 0). *)
-EXTENDS CodeBuffer, TLC, Json
+EXTENDS CodeArea, TLC, Json
 Cases == ndJsonDeserialize("cases.ndjson")
 VARIABLES k, buf, dot, bad, pasting, paste, poss, snap, intr, tabs
 vars == <<k, buf, dot, bad, pasting, paste, poss, snap, intr, tabs>>
 NoTabs == [sab |-> <<>>, wab |-> <<>>, cab |-> <<>>]
 Init == k = 0 /\ buf = <<>> /\ dot = 0 /\ bad = FALSE /\ pasting = FALSE /\ paste = <<>>
         /\ poss = {<<>>} /\ snap = <<<<>>, 0>> /\ intr = FALSE /\ tabs = NoTabs
-
-Insert(b, d, x) == SubSeq(b, 1, d) \o x \o SubSeq(b, d + 1, Len(b))
-IsSuffix(x, y) == Len(x) <= Len(y) /\ SubSeq(y, Len(y) - Len(x) + 1, Len(y)) = x
-SCat(t) == FCat("small", t)
-Longest(S) == CHOOSE x \in S : \A y \in S : Len(y.k) <= Len(x.k)
-Entries(tab) == {tab[i] : i \in 1..Len(tab)}
-
-(* outcome of typing t at (b, d) when i is the text typed consecutively before it *)
-KeyChain(b, d, t, i) ==
-  LET b1 == Insert(b, d, <<t>>)
-      d1 == d + 1
-      i1 == Append(i, t)
-      S  == {x \in Entries(tabs.sab) : Len(x.k) > 0 /\ IsSuffix(x.k, i1)}
-      W  == {x \in Entries(tabs.wab) :
-               /\ Len(x.k) > 0 /\ IsSuffix(x.k, i) /\ d1 = Len(b1)
-               /\ SCat(t) # SCat(x.k[Len(x.k)])
-               /\ (Len(b1) > Len(x.k) + 1 => SCat(b1[Len(b1) - Len(x.k) - 1]) # SCat(x.k[1]))}
-  IN IF S # {} THEN LET x == Longest(S) IN
-                    [buf |-> SubSeq(b1, 1, d1 - Len(x.k)) \o x.v \o SubSeq(b1, d1 + 1, Len(b1)),
-                     dot |-> d1 - Len(x.k) + Len(x.v), ins |-> <<>>]
-     ELSE IF W # {} THEN LET x == Longest(W) IN
-                    [buf |-> SubSeq(b1, 1, d1 - Len(x.k) - 1) \o x.v \o <<t>>,
-                     dot |-> d1 - Len(x.k) + Len(x.v), ins |-> <<>>]
-     ELSE [buf |-> b1, dot |-> d1, ins |-> i1]
-CmdOuts(b, d, t) ==
-  {[buf |-> SubSeq(b, 1, d - Len(x.k)) \o x.v \o <<t>> \o SubSeq(b, d + 1, Len(b)),
-    dot |-> d - Len(x.k) + Len(x.v) + 1, ins |-> <<>>] :
-      x \in {y \in Entries(tabs.cab) : Len(y.k) > 0 /\ IsSuffix(y.k, SubSeq(b, 1, d))}}
 
 Reset1 == [p |-> {<<>>}, i |-> FALSE]
 Unchanged(e) == e.res = buf /\ e.rdot = dot
@@ -84,10 +56,8 @@ Next ==
      ELSE IF bad THEN UNCHANGED <<buf, dot, bad, pasting, paste, poss, snap, intr, tabs>>
      ELSE
        LET collects == pasting /\ e.ev \in {"key", "nongraphic", "backspace", "enter"}
-           E == (IF <<buf, dot>> = snap THEN poss ELSE {}) \cup (IF intr \/ <<buf, dot>> # snap THEN {<<>>} ELSE {})
            keyOuts == IF e.ev = "key" /\ ~pasting
-                      THEN {KeyChain(buf, dot, e.toks[1], i) : i \in E}
-                           \cup (IF e.ws THEN CmdOuts(buf, dot, e.toks[1]) ELSE {})
+                      THEN KeyOuts(tabs, buf, dot, e.toks[1], e.ws, Effective(buf, dot, poss, snap, intr))
                       ELSE {}
            match == {o \in keyOuts : o.buf = e.res /\ o.dot = e.rdot}
            pasted == IF e.q THEN e.toks ELSE paste
